@@ -81,5 +81,90 @@ end
 /-- value of a term (`benv`: values of the enclosing binders, innermost first) -/
 def eval (benv : List F) (env : Nat → F) (t : Term) : F := evalT t benv env
 
+
+/-! ### evaluation of *named* terms (what the user writes), by names — no de Bruijn indices
+
+`Term.close` turns a named term into its locally nameless form; `Proofs/EvalNamed.lean` proves that the
+two evaluators agree along it, so the LN conversion is not trusted for the C03 statements. -/
+
+/-- the environment in which the names `names` (innermost binder first) have the values `vals` -/
+def envWith (names : List Nat) (vals : List F) (env : Nat → F) : Nat → F :=
+  fun x => match names.idxOf? x with
+    | some k => vals.getD k 0
+    | none => env x
+
+/-- slot occurrences of a field with the names of the node's own binders around each (innermost first) -/
+def fieldSlotsN : Field → List Nat → List (List Nat × Nat)
+  | .slot s, loc => [(loc, s)]
+  | .app _, _ => []
+  | .bind x f, loc => fieldSlotsN f (x :: loc)
+  | .lit _, _ => []
+
+/-- a slot the node binds itself has the value 0 (no operator of the harness languages reads one) -/
+def nodeValsN (env : Nat → F) (n : Node) : List F :=
+  (n.fields.flatMap (fieldSlotsN · [])).map fun p => if p.2 ∈ p.1 then 0 else env p.2
+
+/-- for every child position: the names of the node's own binders around it, innermost first -/
+def binderNames (n : Node) : List (List Nat) := n.fields.flatMap (Term.fieldBinders · [])
+
+mutual
+def evalN : Term → (Nat → F) → F
+  | .mk n cs => fun env =>
+    if Term.childDepths n = expDepths n.v then
+      evalNode n (nodeValsN env n) fun i bs =>
+        ((evalNL cs).getD i (fun _ => 0)) (envWith ((binderNames n).getD i []) bs env)
+    else 0
+def evalNL : List Term → List ((Nat → F) → F)
+  | [] => []
+  | t :: ts => evalN t :: evalNL ts
+end
+
+mutual
+/-- every slot occurrence (not binder names) of a named term -/
+def occN : Term → List Nat
+  | .mk n cs => (n.fields.flatMap (fieldSlotsN · [])).map (·.2) ++ occNL cs
+def occNL : List Term → List Nat
+  | [] => []
+  | t :: ts => occN t ++ occNL ts
+end
+
+
+mutual
+/-- every binder name of a named term, at any depth -/
+def bindersN : Term → List Nat
+  | .mk n cs => (binderNames n).flatten ++ bindersNL cs
+def bindersNL : List Term → List Nat
+  | [] => []
+  | t :: ts => bindersN t ++ bindersNL ts
+end
+
+/-- is this node `(var $c)`? -/
+def isVarNode (n : Node) (c : Nat) : Bool :=
+  match n.v, n.fields with
+  | 2, [.slot s] => s == c
+  | _, _ => false
+
+mutual
+/-- `b[(var $c) := e]` on named terms: every `(var $c)` subterm is replaced by `e` (no renaming: see `substOK`) -/
+def substN (c : Nat) (e : Term) : Term → Term
+  | .mk n cs => if isVarNode n c then e else .mk n (substNL c e cs)
+def substNL (c : Nat) (e : Term) : List Term → List Term
+  | [] => []
+  | t :: ts => substN c e t :: substNL c e ts
+end
+
+mutual
+/-- hygiene of the naive substitution: `c` is read only by `(var $c)` nodes, and no binder of the body rebinds `c`
+or captures a slot of the inserted term (`avoid`) -/
+def substOK (c : Nat) (avoid : List Nat) : Term → Bool
+  | .mk n cs => isVarNode n c ||
+      (((n.fields.flatMap (fieldSlotsN · [])).all fun p => p.2 != c) &&
+       ((binderNames n).flatten.all fun y => y != c && !avoid.contains y) &&
+       substOKL c avoid cs)
+def substOKL (c : Nat) (avoid : List Nat) : List Term → Bool
+  | [] => true
+  | t :: ts => substOK c avoid t && substOKL c avoid ts
+end
+
 end Eval
 end SV
